@@ -244,3 +244,137 @@ Example units_ex_single :
   /\ minutes_result (Doc.minutes Doc.per_hard (Doc.Pairs [((2, []), Doc.lit "h"%string)])) = Some 120
   /\ minutes_result (Doc.minutes Doc.per_hard (Doc.Pairs [((99999999999, []), Doc.lit "h"%string)])) = None.
 Proof. vm_compute. repeat split. Qed.
+
+(* ---------------------------------------------------------------------- 6. servings *)
+
+(* a number *)
+Theorem C13_servings_number :
+  forall v n, as_u32 v = Some n -> value_as_servings v = Some [n].
+Proof. exact servings_number. Qed.
+Print Assumptions C13_servings_number.
+
+(* a `|`-separated string whose entries are blanks, a number, nothing or text that does not
+   continue the number (`2 | 4 |8 people`), blanks: the numbers, refused when two are equal *)
+Theorem C13_servings_string :
+  forall es,
+    es <> [] -> Forall sv_ok es -> Doc.no_sep 124 (map sv_print es) ->
+    Doc.servings (map sv_num es) (value_as_servings (YStr (Doc.join 124 (map sv_print es)))).
+Proof. intros es NE F NS. rewrite servings_string by assumption. apply servings_finish. Qed.
+Print Assumptions C13_servings_string.
+
+(* a list of numbers *)
+Theorem C13_servings_list :
+  forall ns,
+    Forall (fun n => n < two32) ns ->
+    Doc.servings ns (value_as_servings (YSeq (map (fun n => YNum (Some n) (Doc.print_nat n)) ns))).
+Proof. intros ns F. rewrite servings_list by assumption. apply servings_finish. Qed.
+Print Assumptions C13_servings_list.
+
+(* whatever the value: servings that are returned never contain a duplicate *)
+Theorem C13_servings_nodup :
+  forall v l, value_as_servings v = Some l -> NoDup l.
+Proof. exact servings_any. Qed.
+Print Assumptions C13_servings_nodup.
+
+Definition ex_servings : list sv_entry :=
+  [([], 2, [32], []); ([32], 4, [], [32]); ([], 8, Doc.lit " people"%string, [])].
+Example servings_ex :
+  Doc.join 124 (map sv_print ex_servings) = Doc.lit "2 | 4 |8 people"%string
+  /\ value_as_servings (YStr (Doc.lit "2 | 4 |8 people"%string)) = Some [2; 4; 8]
+  /\ value_as_servings (YStr (Doc.lit "2|02"%string)) = None
+  /\ value_as_servings (YStr (Doc.lit "5cups"%string)) = None.
+Proof. vm_compute. repeat split. Qed.
+Example servings_ex_ok : Forall sv_ok ex_servings /\ Doc.no_sep 124 (map sv_print ex_servings).
+Proof.
+  split; [repeat constructor; vm_compute; congruence|].
+  intros p I. cbn in I. repeat (destruct I as [<-|I]; [vm_compute; intuition congruence|]). contradiction.
+Qed.
+
+(* ---------------------------------------------------------------------- 6. tags *)
+
+(* a comma string: the trimmed pieces, without the empty ones, each once, in order *)
+Theorem C13_tags_string :
+  forall pieces,
+    pieces <> [] -> Doc.no_sep 44 pieces ->
+    exists l, value_as_tags (YStr (Doc.join 44 pieces)) = Some l /\ Doc.tags_of (map trim pieces) l.
+Proof. exact tags_string. Qed.
+Print Assumptions C13_tags_string.
+
+(* a list of strings: the entries, without the empty ones, each once, in order *)
+Theorem C13_tags_list :
+  forall entries,
+    exists l, value_as_tags (YSeq (map YStr entries)) = Some l /\ Doc.tags_of entries l.
+Proof. exact tags_list. Qed.
+Print Assumptions C13_tags_list.
+
+(* whatever the value: tags that are returned are distinct and not empty *)
+Theorem C13_tags_nodup_nonempty :
+  forall v l, value_as_tags v = Some l -> NoDup l /\ ~ In [] l.
+Proof. exact tags_any. Qed.
+Print Assumptions C13_tags_nodup_nonempty.
+
+Example tags_ex :
+  Doc.join 44 [Doc.lit "a"%string; Doc.lit " b"%string; []; Doc.lit "a "%string] = Doc.lit "a, b,,a "%string
+  /\ value_as_tags (YStr (Doc.lit "a, b,,a "%string)) = Some [Doc.lit "a"%string; Doc.lit "b"%string].
+Proof. vm_compute. split; reflexivity. Qed.
+
+(* ---------------------------------------------------------------------- 6. locale *)
+
+(* accepted exactly as `ll` or `ll_CC` with ASCII letters, and split accordingly *)
+Theorem C13_locale_iff :
+  forall s l d, value_as_locale (YStr s) = Some (l, d) <-> Doc.locale s l d.
+Proof. exact locale_iff. Qed.
+Print Assumptions C13_locale_iff.
+
+Theorem C13_locale_non_string :
+  forall v, as_str v = None -> value_as_locale v = None.
+Proof. exact locale_non_string. Qed.
+Print Assumptions C13_locale_non_string.
+
+Example locale_ex :
+  value_as_locale (YStr (Doc.lit "en_GB"%string)) = Some (Doc.lit "en"%string, Some (Doc.lit "GB"%string))
+  /\ value_as_locale (YStr (Doc.lit "e1"%string)) = None.
+Proof. vm_compute. split; reflexivity. Qed.
+
+(* ---------------------------------------------------------------------- 6. name and URL *)
+
+(* `Name <Url>` and `<Url>` (empty name): name and URL when the bracketed text is a valid
+   URL; an invalid URL in brackets makes the whole string a plain one (next theorem).
+   [_partial]: validity is the model's [is_url]; its agreement with the documented URL shape
+   [Doc.valid_url] (the full statement below) is not proved, only monitored at run time. *)
+Theorem C13_name_url_bracket_partial :
+  forall alpha dbg name url pad,
+    ~ In 60 name -> existsb_n is_angle url = false -> forallb ascii_ws pad = true ->
+    nu_parse alpha (cfg_new dbg) (Doc.print_bracket name url pad)
+    = if is_url alpha (trim url) then nu_new (Some name) (Some url)
+      else if is_url alpha (Doc.print_bracket name url pad)
+           then nu_new None (Some (Doc.print_bracket name url pad))
+           else nu_new (Some (Doc.print_bracket name url pad)) None.
+Proof. intros. apply (nu_parse_bracket alpha (cfg_new dbg)); (reflexivity || assumption). Qed.
+Print Assumptions C13_name_url_bracket_partial.
+
+(* `Url` and `Name`: a string not ending in `>` is the URL if it is one, else the name *)
+Theorem C13_name_url_plain_partial :
+  forall alpha dbg s,
+    last_is (trim_ascii_end s) 62 = false ->
+    nu_parse alpha (cfg_new dbg) s
+    = if is_url alpha s then nu_new None (Some s) else nu_new (Some s) None.
+Proof. intros. apply nu_parse_plain. assumption. Qed.
+Print Assumptions C13_name_url_plain_partial.
+
+Definition C13_name_url_full : Prop :=
+  forall alpha s, is_url alpha s = true <-> Doc.valid_url alpha s.
+
+Example name_url_ex :
+  nu_parse is_ascii_alpha (cfg_new true) (Doc.lit "Rachel <https://rachel.url> "%string)
+  = (Some (Doc.lit "Rachel"%string), Some (Doc.lit "https://rachel.url"%string))
+  /\ nu_parse is_ascii_alpha (cfg_new true) (Doc.lit "<https://rachel.url>"%string)
+     = (None, Some (Doc.lit "https://rachel.url"%string))
+  /\ nu_parse is_ascii_alpha (cfg_new true) (Doc.lit "Rachel <foo>"%string)
+     = (Some (Doc.lit "Rachel <foo>"%string), None)
+  /\ nu_parse is_ascii_alpha (cfg_new true) (Doc.lit "https://rachel.url"%string)
+     = (None, Some (Doc.lit "https://rachel.url"%string))
+  /\ nu_parse is_ascii_alpha (cfg_new true) (Doc.lit "Rachel"%string) = (Some (Doc.lit "Rachel"%string), None)
+  /\ Doc.print_bracket (Doc.lit "Rachel "%string) (Doc.lit "https://rachel.url"%string) [32]
+     = Doc.lit "Rachel <https://rachel.url> "%string.
+Proof. vm_compute. repeat split. Qed.
